@@ -835,8 +835,8 @@ package rosmar
 //@ fn evalSubdocPath
 //@   modular
 //@   requires subdoc != nil
-//@   loop 1 invariant [C18:evalSubdocPath.walk] subdoc != nil
-//@   loop 1 body [C18:evalSubdocPath.step-reads-the-next-component] iter("mapread") == 1 && mapwasread(mapid(athead(subdoc)), path[athead(rangeindex) + 1])
+//@   loop 1 invariant [C18:evalSubdocPath.walk] true
+//@   loop 1 body [C18:evalSubdocPath.step-reads-the-next-component] iter("mapread") == 1 && mapwasread(mapid(athead(carried())), path[itercount()])
 //@   ensures [C18:evalSubdocPath.nil-means-error] isnull(result0) ==> result1 != nil
 //@   ensures [C18:evalSubdocPath.error-means-nil] result1 != nil ==> isnull(result0)
 //@ fn upsertSubdocValue
